@@ -137,6 +137,44 @@ func ruleLzmaWriterContract(c *Ctx, r *Report, prefix string) {
 	// Write: p is cut to size - written (clipped at 0) and ErrNoSpace is reported
 	{
 		okExpr, okTrunc := false, false
+		// as a linear form: size - Compressed() - Buffered(), however it is bracketed
+		{
+			env := newLinEnv(c)
+			var sizes, comps, bufs, subs []ssa.Value
+			for _, b := range theCtx.GB(wWrite) {
+				for _, ins := range b.Instrs {
+					switch x := ins.(type) {
+					case *ssa.UnOp:
+						if roleFieldLoad(fSize)(x) {
+							sizes = append(sizes, x)
+						}
+					case *ssa.Call:
+						if x.Call.StaticCallee() == comp {
+							comps = append(comps, x)
+						}
+						if x.Call.StaticCallee() == buffered {
+							bufs = append(bufs, x)
+						}
+					case *ssa.BinOp:
+						if x.Op == token.SUB {
+							subs = append(subs, x)
+						}
+					}
+				}
+			}
+			for _, sv := range sizes {
+				for _, cv := range comps {
+					for _, bv := range bufs {
+						want := env.of(sv).add(env.of(cv), -1).add(env.of(bv), -1)
+						for _, sub := range subs {
+							if env.of(sub).eq(want) {
+								okExpr = true
+							}
+						}
+					}
+				}
+			}
+		}
 		for _, b := range theCtx.GB(wWrite) {
 			for _, ins := range b.Instrs {
 				if bo, ok := ins.(*ssa.BinOp); ok && bo.Op == token.SUB && roleFieldLoad(fSize)(bo.X) && soFar(bo.Y) {
@@ -569,6 +607,7 @@ func ruleXZWriterFormat(c *Ctx, r *Report, prefix string) {
 		}
 	}
 	if fn := c.Func("", "header.MarshalBinary"); fn != nil {
+		c.curRoot, c.bindParam = fn, nil // shared helpers are looked at through this function
 		r.Check(crcPut(fn, roleSlice(isMade(12), 6, 8), roleSlice(isMade(12), 8, -1)), rule, "header-crc:"+FnName(fn), c.Pos(fn.Pos()),
 			"stream header: CRC32 of data[6:8] stored at data[8:12]", "header.MarshalBinary does not store the CRC32 of the stream flags data[6:8] at data[8:12]")
 		// flags at data[7], data[6] stays zero
@@ -587,6 +626,7 @@ func ruleXZWriterFormat(c *Ctx, r *Report, prefix string) {
 		r.Check(ok, rule, "header-flags:"+FnName(fn), c.Pos(fn.Pos()), "check id stored at data[7]", "header.MarshalBinary does not store the check id at data[7]")
 	}
 	if fn := c.Func("", "footer.MarshalBinary"); fn != nil {
+		c.curRoot, c.bindParam = fn, nil // shared helpers are looked at through this function
 		r.Check(crcPut(fn, roleSlice(isMade(12), 4, 10), roleSlice(isMade(12), 0, -1)), rule, "footer-crc:"+FnName(fn), c.Pos(fn.Pos()),
 			"stream footer: CRC32 of data[4:10] stored at data[0:4]", "footer.MarshalBinary does not store the CRC32 of data[4:10] at data[0:4]")
 		// backward size = indexSize/4 - 1 at data[4:8]
@@ -604,6 +644,7 @@ func ruleXZWriterFormat(c *Ctx, r *Report, prefix string) {
 		r.Check(ok, rule, "footer-backward-size:"+FnName(fn), c.Pos(fn.Pos()), "backward size = indexSize/4 - 1 stored at data[4:8]", "footer.MarshalBinary does not store indexSize/4 - 1 at data[4:8]")
 	}
 	if fn := c.Func("", "blockHeader.MarshalBinary"); fn != nil {
+		c.curRoot, c.bindParam = fn, nil // shared helpers are looked at through this function
 		// CRC over data[:len-4] stored at data[len-4:]
 		ok := false
 		for _, b := range theCtx.GB(fn) {
@@ -749,6 +790,7 @@ func ruleXZWriterFormat(c *Ctx, r *Report, prefix string) {
 	}
 	// index: all parts go through the CRC'd multi-writer, the CRC itself to the plain writer; record order
 	if fn := c.Func("", "writeIndex"); fn != nil {
+		c.curRoot, c.bindParam = fn, nil // shared helpers are looked at through this function
 		// on every successful path: data writes go to the CRC'd multi-writer, then the CRC is
 		// taken, then exactly one write goes to the plain sink (the CRC); nothing else
 		spec := SeqSpec{Fn: fn, NoMerge: true}
@@ -902,6 +944,7 @@ func ruleXZWriterFormat(c *Ctx, r *Report, prefix string) {
 		r.Check(okPad || inMemoryPad, rule, "index-padding:"+FnName(fn), c.Pos(fn.Pos()), "index padding = padLen(bytes so far)", "writeIndex does not pad the index with padLen(n) zero bytes")
 	}
 	if fn := c.Func("", "record.MarshalBinary"); fn != nil {
+		c.curRoot, c.bindParam = fn, nil // shared helpers are looked at through this function
 		fUp, fUn := c.Field("", "record.unpaddedSize"), c.Field("", "record.uncompressedSize")
 		var seq []string
 		for _, b := range theCtx.GB(fn) {
@@ -936,9 +979,11 @@ func ruleXZWriterFormat(c *Ctx, r *Report, prefix string) {
 	}
 	// writer-side unpadded size and block trailer
 	if fn := c.Func("", "blockWriter.unpaddedSize"); fn != nil {
+		c.curRoot, c.bindParam = fn, nil // shared helpers are looked at through this function
 		ruleUnpaddedSize(c, r, rule, fn, c.Field("", "blockWriter.headerLen"), c.Field("", "countingWriter.n"), c.Field("", "blockWriter.hash"))
 	}
 	if fn := c.Func("", "blockWriter.Close"); fn != nil {
+		c.curRoot, c.bindParam = fn, nil // shared helpers are looked at through this function
 		padLen := c.Func("", "padLen")
 		fCWn := c.Field("", "countingWriter.n")
 		okBuf, okSum := false, false
